@@ -40,3 +40,6 @@ pub type AppxDbscanValidParams<F, N> = DbscanValidParams<F, L2Dist, N>;
 pub type AppxDbscanParams<F, N> = DbscanParams<F, L2Dist, N>;
 pub type AppxDbscanParamsError = DbscanParamsError;
 pub type AppxDbscan = Dbscan;
+
+#[cfg(linfa_verif)]
+pub mod verif_hooks_c20;
